@@ -6,7 +6,7 @@ namespace Hive.KV.Conc
 open Hive.Conc
 
 theorem compile_head_not_eff (op : COp) (a : DOp) (rest : List Instr) : compile op ≠ .eff a :: rest := by
-  cases op <;> simp [compile, readCode, writeCode, iterCode, flagCode, batchCode]
+  cases op <;> simp [compile, readCode, writeCode, fwriteCode, iterCode, flagCode, batchCode]
 
 theorem pendingEff_at_eff {t : Thread} (ht : TInv t) {a : DOp} {rest : List Instr} (hcode : t.code = .eff a :: rest) :
     pendingEff t := by
@@ -127,6 +127,9 @@ theorem hinv_step {s s' : Shared} {pre post : List Thread} {t t' : Thread} (hs :
     exact hinv_keep h rfl rfl rfl rfl rfl
       (fun hp => Or.inl (pendingEff_tail hcode rfl (by simp) (by simp) hp))
   | runlock op l rest hc hcode =>
+    exact hinv_keep h rfl rfl rfl rfl rfl
+      (fun hp => Or.inl (pendingEff_tail hcode rfl (by simp) (by simp) hp))
+  | load op rest hc hcode =>
     exact hinv_keep h rfl rfl rfl rfl rfl
       (fun hp => Or.inl (pendingEff_tail hcode rfl (by simp) (by simp) hp))
 
